@@ -41,6 +41,10 @@ func (round *round4) Start() *tss.Error {
 
 	// compute the multiplicative inverse thelta mod q
 	thetaInverse = modN.ModInverse(thetaInverse)
+	if thetaInverse == nil {
+		// the published theta_j sum to 0 mod q (a peer can force this by publishing its value last)
+		return round.WrapError(errors.New("the sum of the theta shares is not invertible"))
+	}
 	i := round.PartyID().Index
 	ContextI := append(round.temp.ssid, new(big.Int).SetUint64(uint64(i)).Bytes()...)
 	piGamma, err := schnorr.NewZKProof(ContextI, round.temp.gamma, round.temp.pointGamma, round.Rand())
